@@ -278,6 +278,55 @@ func families() []family {
 		}, readAll},
 		{"F3-escape-at-every-nesting-level-array", func(n int) [][]byte { return one(rep(`["\n",`, n) + "1" + rep("]", n)) }, readFresh},
 		{"F3b-escape-at-every-nesting-level-object", func(n int) [][]byte { return one(rep(`{"k\n":"v\t","n":`, n) + "1" + rep("}", n)) }, readFresh},
+		{"unicode-escapes-in-one-long-string", func(n int) [][]byte { return one(`["` + rep(`\u00e9`, n*4) + `",{"` + rep(`\u00fc`, n) + `":"` + rep(`\ud83d\ude00`, n) + `"}]`) }, readFresh},
+		{"unicode-escapes-ReadStringBytes", func(n int) [][]byte { return one(`"` + rep(`\u00e9`, n*8) + `"`) }, func(docs [][]byte) {
+			for _, d := range docs {
+				rjson.ReadStringBytes(d, nil)
+				rjson.ReadString(d, nil)
+				rjson.UnescapeStringContent(d[1:len(d)-1], nil)
+			}
+		}},
+		{"big-array-then-many-empty-arrays", func(n int) [][]byte { return one("[[" + rep("0,", n) + "0]" + rep(",[]", n) + "]") }, readFresh},
+		{"big-array-then-empty-arrays-in-object", func(n int) [][]byte {
+			var sb strings.Builder
+			sb.WriteString(`{"big":[` + rep("0,", n) + "0]")
+			for i := 0; i < n; i++ {
+				fmt.Fprintf(&sb, `,"e%d":[]`, i)
+			}
+			return one(sb.String() + "}")
+		}, readFresh},
+		{"reused-reader-big-array-then-empty-arrays", func(n int) [][]byte {
+			docs := [][]byte{[]byte("[" + rep("0,", n*8) + "0]")}
+			for i := 0; i < n; i++ {
+				docs = append(docs, []byte("[]"), []byte("[[]]"))
+			}
+			return docs
+		}, func(docs [][]byte) {
+			var rd rjson.ValueReader
+			for i, d := range docs {
+				if i%2 == 0 {
+					rd.ReadArray(d)
+				} else {
+					rd.ReadValue(d)
+				}
+			}
+		}},
+		{"reused-reader-big-object-then-empty-objects", func(n int) [][]byte {
+			docs := [][]byte{[]byte(keysObj(n * 4))}
+			for i := 0; i < n; i++ {
+				docs = append(docs, []byte("{}"), []byte(`{"a":{}}`))
+			}
+			return docs
+		}, func(docs [][]byte) {
+			var rd rjson.ValueReader
+			for i, d := range docs {
+				if i%2 == 0 {
+					rd.ReadObject(d)
+				} else {
+					rd.ReadValue(d)
+				}
+			}
+		}},
 		{"wide-array-of-numbers", func(n int) [][]byte { return one("[" + rep("1.5,", n*4) + "2]") }, readFresh},
 		{"wide-object", func(n int) [][]byte { return one(keysObj(n * 2)) }, readFresh},
 		{"deep-arrays", func(n int) [][]byte { return one(rep("[", min(n, 9000)) + rep("]", min(n, 9000))) }, readFresh},
